@@ -134,4 +134,90 @@ example : (OS.cons [0x04, 0x01, 0x61, 0x04, 0x00, 0x04, 0x01, 0x62]).octets = .o
     ∧ (OS.prim [0x61, 0x62]).octets = .ok [0x61, 0x62] := by
   constructor <;> rfl
 
+
+/-! ### `Ord` is a lawful total order (session 5) -/
+
+theorem lexCompare_swap (x y : Bytes) : Spec.lexCompare y x = (Spec.lexCompare x y).swap := by
+  induction x generalizing y with
+  | nil => cases y <;> simp [Spec.lexCompare]
+  | cons a as ih =>
+    cases y with
+    | nil => simp [Spec.lexCompare]
+    | cons b bs =>
+      simp only [Spec.lexCompare]
+      by_cases h1 : a.toNat < b.toNat
+      · have : ¬ b.toNat < a.toNat := by omega
+        simp [h1, this]
+      · by_cases h2 : b.toNat < a.toNat
+        · simp [h1, h2]
+        · simp [h1, h2, ih]
+
+theorem lexCompare_trans_lt (x y z : Bytes) (h1 : Spec.lexCompare x y = .lt)
+    (h2 : Spec.lexCompare y z = .lt) : Spec.lexCompare x z = .lt := by
+  induction x generalizing y z with
+  | nil =>
+    cases y with
+    | nil => simp [Spec.lexCompare] at h1
+    | cons b bs => cases z with
+      | nil => simp [Spec.lexCompare] at h2
+      | cons c cs => simp [Spec.lexCompare]
+  | cons a as ih =>
+    cases y with
+    | nil => simp [Spec.lexCompare] at h1
+    | cons b bs =>
+      cases z with
+      | nil => simp [Spec.lexCompare] at h2
+      | cons c cs =>
+        simp only [Spec.lexCompare] at h1 h2 ⊢
+        by_cases hab : a.toNat < b.toNat
+        · by_cases hbc : b.toNat < c.toNat
+          · have : a.toNat < c.toNat := by omega
+            simp [this]
+          · by_cases hcb : b.toNat > c.toNat
+            · simp [hbc, hcb] at h2
+            · have : a.toNat < c.toNat := by omega
+              simp [this]
+        · by_cases hba : a.toNat > b.toNat
+          · simp [hab, hba] at h1
+          · simp only [hab, hba, if_false] at h1
+            have hab' : a.toNat = b.toNat := by omega
+            by_cases hbc : b.toNat < c.toNat
+            · have : a.toNat < c.toNat := by omega
+              simp [this]
+            · by_cases hcb : b.toNat > c.toNat
+              · simp [hbc, hcb] at h2
+              · simp only [hbc, hcb, if_false] at h2
+                have e1 : ¬ a.toNat < c.toNat := by omega
+                have e2 : ¬ a.toNat > c.toNat := by omega
+                simp only [e1, e2, if_false]
+                exact ih bs cs h1 h2
+
+/-- C17 — `Ord` on octet strings is a lawful total order on the contents, whatever the segmentation
+of the three values: antisymmetric (`cmp b a` is the reverse of `cmp a b`), transitive, and `Equal`
+exactly where `==` holds. -/
+theorem cmp_swap (a b : OS) (x y : Bytes) (ha : a.octets = .ok x) (hb : b.octets = .ok y) :
+    ∃ o, OS.cmp a b = .ok o ∧ OS.cmp b a = .ok o.swap :=
+  ⟨_, cmp_content a b x y ha hb, by rw [cmp_content b a y x hb ha, lexCompare_swap]⟩
+
+theorem cmp_trans (a b c : OS) (x y z : Bytes) (ha : a.octets = .ok x) (hb : b.octets = .ok y)
+    (hc : c.octets = .ok z) (h1 : OS.cmp a b = .ok .lt) (h2 : OS.cmp b c = .ok .lt) :
+    OS.cmp a c = .ok .lt := by
+  rw [cmp_content a b x y ha hb] at h1
+  rw [cmp_content b c y z hb hc] at h2
+  rw [cmp_content a c x z ha hc]
+  injection h1 with h1; injection h2 with h2
+  rw [lexCompare_trans_lt x y z h1 h2]
+
+theorem cmp_eq_iff_eq (a b : OS) (x y : Bytes) (ha : a.octets = .ok x) (hb : b.octets = .ok y) :
+    OS.cmp a b = .ok .eq ↔ OS.eq a b = .ok true := by
+  rw [cmp_content a b x y ha hb, eq_iff_content a b x y ha hb]
+  constructor
+  · intro h; injection h with h; simp [(lexCompare_eq_iff x y).mp h]
+  · intro h; injection h with h
+    have : x = y := by simpa using h
+    simp [(lexCompare_eq_iff x y).mpr this]
+
+example : OS.cmp (OS.cons [0x04, 0x01, 0x61, 0x04, 0x00, 0x04, 0x01, 0x62]) (OS.prim [0x61, 0x63]) = .ok .lt := by
+  rw [cmp_content _ _ [0x61, 0x62] [0x61, 0x63] rfl rfl]; rfl
+
 end Bcder.Props.C17
